@@ -47,15 +47,21 @@ UserNext ==
   \/ Can("env") /\ \E v \in {"e0", "e1"} : v # env /\ Scr(<<"env", v>>) /\ ChangeEnv(v)
   \/ Can("build") /\ \E gl \in Goals : Scr(<<"build", gl>>) /\ StartBuild(gl)
   \/ Can("clean") /\ \E gl \in Goals : Scr(<<"clean", gl>>) /\ StartClean(gl)
+  \/ Can("crash") /\ Can("build") /\ \E n \in 1..3 : Scr(<<"crashinit", n>>) /\ CrashInInit(n)
 
 RunNext ==
   /\ mode # "idle"
   /\ \/ (Free \/ MainEnabled) /\ MainStep
      \/ \E t \in DOMAIN tl : Sched(t) /\ AnyThreadStep(t)
      \/ "crash" \in UserActs /\ Crash
+     \/ "crash" \in UserActs /\ \E t \in DOMAIN tl, k \in 1..3, torn \in BOOLEAN : Sched(t) /\ CrashInExec(t, k, torn)
+     \/ "crash" \in UserActs /\ CrashInSave
 
 Next == UserNext \/ RunNext
 Spec == Init /\ [][Next]_vars
+\* C05 as a liveness property: under weak fairness of the steps of an invocation every invocation returns
+LiveSpec == Init /\ [][Next]_vars /\ WF_vars(RunNext)
+Terminates == (mode # "idle") ~> (mode = "idle")
 
 (* ---------------- stamp-normalising view ---------------------------------- *)
 StampsOf(F) == {F[k].m : k \in DOMAIN F}
@@ -77,5 +83,5 @@ NoScript == <<>>
 \* returns with the same key (the same pre-state, different interleavings) carry the same outcome
 ErrBag(errs) == {<<e, Cardinality({j \in DOMAIN errs : errs[j] = e})>> : e \in SeqSet(errs)}
 OutcomeProbe == (ev.a = "ret" /\ ev.kind = "build" /\ Script # <<>>) =>
-                   PrintT(<<"OUTCOME", g.nuser, ev.verdict, ErrBag(ev.errs), WsContents>>)
+                   PrintT(<<"OUTCOME", g.nuser, ToString(<<ev.verdict, ErrBag(ev.errs), WsContents>>)>>)
 =============================================================================
